@@ -1,5 +1,5 @@
 import os
-import common, p_vxbase
+import common, p_vxbase, cli_cfg
 
 ASSUME = {
  "C17": ["the generated files are produced by the real `monorail config generate`; load+check is Config::new + Config::check as cli::handle calls them (the CLI slice binds this to every subcommand)",
@@ -10,6 +10,7 @@ ASSUME = {
 def run(prop, tier):
     os.environ["VX_MONORAIL"] = common.MONORAIL
     r = common.run_vx(prop.lower(), tier)
+    cli_cfg.merge(r, prop, tier)
     return r, ASSUME[prop]
 
 def replay(prop, path):
